@@ -672,10 +672,135 @@ func runC07(c *Ctx) {
 				})
 			}
 			sort.Strings(sites)
-			c.verdict(len(bad) == 0 && len(sites) >= 2, fmt.Sprintf("record size %d | %s", want, prefixes[0]), "", fmt.Sprintf("%d size constants all equal %d", len(sites), want), join(bad)+fmt.Sprintf(" (%d sites)", len(sites)), sites...)
+			// the size constants may have moved behind HeaderType.Size (checked
+			// above) and a shared offset helper: one remaining site is enough
+			c.verdict(len(bad) == 0 && len(sites) >= 1, fmt.Sprintf("record size %d | %s", want, prefixes[0]), "", fmt.Sprintf("%d size constants all equal %d", len(sites), want), join(bad)+fmt.Sprintf(" (%d sites)", len(sites)), sites...)
 		}
 		check([]string{"(*headerfs.blockHeaderStore).", fnNewB}, bsz)
 		check([]string{"(*headerfs.filterHeaderStore).", fnNewF}, fsz)
+	})
+
+	c.rule("C07.V8", "a rollback removes exactly the n newest entries from the file too (the index moves back by n: a file that keeps them answers lookups above the tip, and the next append lands behind them): "+truncatesWholeRecordsDoc, func() { c.truncatesWholeRecords() })
+
+	c.rule("C07.V7", "a height beyond the tip is not found, however large: every offset and length handed to the flat file (File.ReadAt / WriteAt / Truncate / Seek) that is the product of a height or count and a record size is multiplied out in 64 bits; a 32-bit product wraps (height 2^27+k of the filter store, 2^28+k of the block store lands on the header at height k, and FetchHeaderByHeight returns it with a nil error where a plain list reports 'not found')", func() {
+		fileT := c.P.Named("headerfs", "File")
+		if fileT == nil {
+			panic(anchorErr{"headerfs.File"})
+		}
+		n := 0
+		var bad, sites []string
+		narrow := func(t types.Type) bool {
+			b, ok := t.Underlying().(*types.Basic)
+			if !ok {
+				return false
+			}
+			switch b.Kind() {
+			case types.Int8, types.Int16, types.Int32, types.Uint8, types.Uint16, types.Uint32:
+				return true
+			}
+			return false
+		}
+		for _, fn := range c.P.Funcs {
+			if fn.Pkg == nil || fn.Pkg.Pkg.Path() != ir.ModPath+"/headerfs" {
+				continue
+			}
+			ir.Instrs(fn, func(in ssa.Instruction) {
+				cc := ir.CallOf(in)
+				if cc == nil {
+					return
+				}
+				name := ""
+				if cc.IsInvoke() {
+					name = cc.Method.Name()
+				} else if f := cc.StaticCallee(); f != nil && f.Signature.Recv() != nil && strings.HasSuffix(f.Signature.Recv().Type().String(), "os.File") {
+					name = f.Name()
+				}
+				var off ssa.Value
+				switch name {
+				case "ReadAt", "WriteAt":
+					if a := argsOf(in); len(a) == 2 {
+						off = a[1]
+					}
+				case "Truncate", "Seek":
+					if a := argsOf(in); len(a) >= 1 {
+						off = a[0]
+					}
+				}
+				if off == nil {
+					return
+				}
+				if b, ok := off.Type().Underlying().(*types.Basic); !ok || b.Kind() != types.Int64 {
+					return
+				}
+				n++
+				sites = append(sites, c.at(in))
+				// products on the way to the offset
+				seen := map[ssa.Value]bool{}
+				var walk func(v ssa.Value, d int)
+				walk = func(v ssa.Value, d int) {
+					if v == nil || seen[v] || d > 12 {
+						return
+					}
+					seen[v] = true
+					switch x := v.(type) {
+					case *ssa.Convert:
+						walk(x.X, d+1)
+					case *ssa.ChangeType:
+						walk(x.X, d+1)
+					case *ssa.Phi:
+						for _, e := range x.Edges {
+							walk(e, d+1)
+						}
+					case *ssa.BinOp:
+						if x.Op == token.MUL && narrow(x.Type()) {
+							bad = append(bad, fmt.Sprintf("%s: the offset of the file access at %s contains a %s product computed at %s", c.nm(fn), c.at(in), x.Type().String(), c.at(x)))
+						}
+						// below a product lie the height / count and the
+						// record size themselves, not offsets: the walk
+						// ends there
+						if x.Op == token.ADD || x.Op == token.SUB {
+							walk(x.X, d+1)
+							walk(x.Y, d+1)
+						}
+					case *ssa.Parameter:
+						// the offset is worked out by the callers
+						callee := x.Parent()
+						idx := -1
+						for i, pp := range callee.Params {
+							if pp == x {
+								idx = i
+							}
+						}
+						for _, g := range c.P.Funcs {
+							if g.Pkg != callee.Pkg {
+								continue
+							}
+							ir.Instrs(g, func(ci ssa.Instruction) {
+								cc2 := ir.CallOf(ci)
+								if cc2 == nil || cc2.IsInvoke() || cc2.StaticCallee() != callee {
+									return
+								}
+								args := cc2.Args
+								if idx >= 0 && idx < len(args) {
+									walk(args[idx], d+1)
+								}
+							})
+						}
+					case *ssa.UnOp:
+						if x.Op == token.MUL { // load of a local cell
+							if al, ok := x.X.(*ssa.Alloc); ok {
+								for _, st := range ir.StoresTo(al) {
+									walk(st.Val, d+1)
+								}
+							}
+						}
+					}
+				}
+				walk(off, 0)
+			})
+		}
+		sort.Strings(bad)
+		c.verdict(len(bad) == 0 && n >= 3, "headerfs | flat-file offsets are 64-bit products", "", fmt.Sprintf("%d file accesses with an offset; no narrow product on the way to any of them", n), join(uniq(bad))+fmt.Sprintf(" (%d accesses)", n), sites...)
 	})
 
 	c.rule("C07.G1", "RollbackBlockHeaders never rolls back past genesis: both truncations are reachable only when n > chainTipHeight is false", func() {
